@@ -221,7 +221,8 @@ const META: Meta = Meta {
 
 pub fn run(env: &Env, replay: Option<&Path>) -> i32 {
     let mut report = Report::new();
-    let subs: [&dyn DynSub; 3] = [&VecCodec, &StrCodec, &StrBlock];
+    let cold = crate::coldstart::ColdStart("C07");
+    let subs: [&dyn DynSub; 4] = [&VecCodec, &StrCodec, &StrBlock, &cold];
     if let Some(p) = replay {
         if let Err(e) = replay_file(env, &subs, p, &mut report) {
             eprintln!("harness: {}", e);
@@ -254,5 +255,8 @@ pub fn run(env: &Env, replay: Option<&Path>) -> i32 {
     report.notes.push("the enumerated sub-domain (short strings) is complete; the property as a whole is sampled, so exhaustive stays false".into());
     drive(env, &VecCodec, env.tier.pick(400_000, 4_000_000), &mut report);
     drive(env, &StrCodec, env.tier.pick(300_000, 3_000_000), &mut report);
+    // fresh processes whose threads make their first calls at the same moment
+    report.notes.push(crate::coldstart::NOTE.to_string());
+    drive(env, &cold, env.tier.pick(240, 6000), &mut report);
     finish(env, report, &META)
 }
